@@ -26,7 +26,8 @@ RULE = ('case = device tables of 0..12 entries (all types), CRC values incl. 0, 
 ASSUMPTIONS = ['a crash during the cache write leaves a prefix of the intended file content',
                'cache files that are valid JSON but semantically wrong are outside the statement']
 REQUIRED = ['mon.cached_connects', 'mon.cache_hits', 'mon.truncation_offsets', 'mon.truncated_connects',
-            'mon.garbled_files', 'mon.crc_collision_cases', 'mon.ro_dir_audited', 'mon.audit_events_seen']
+            'mon.garbled_files', 'mon.crc_collision_cases', 'mon.ro_dir_audited', 'mon.audit_events_seen',
+            'mon.files_vanished_before_connect']
 DESC_TIMEOUT = 1500
 EXHAUSTIVE = {'quick': False, 'thorough': False}
 EXHAUSTIVE_NOTE = 'truncation offsets are enumerated completely for every written cache file (fetch level); connections on a sample'
@@ -90,7 +91,7 @@ def _dirhash(d):
     return h.hexdigest()
 
 
-def connect_once(dev_profile, ro, rw, seed):
+def connect_once(dev_profile, ro, rw, seed, after_construct=None):
     """One real connection with a fresh Crazyflie; returns observation dict."""
     from vf import detsched as ds, simcf, simlink
     from cflib.crazyflie import Crazyflie
@@ -103,6 +104,8 @@ def connect_once(dev_profile, ro, rw, seed):
     def fn(s):
         dev.now = lambda: s.now
         cf = Crazyflie(ro_cache=ro, rw_cache=rw)
+        if after_construct is not None:
+            after_construct()
         done = ds.Event()
 
         def on_conn(u):
@@ -270,6 +273,27 @@ def run(desc, ctx):
                 json.loads(now.decode('utf8'))
             except Exception:
                 V('cache:file-still-corrupt-after-download', {'file': f, 'offset': off})
+        # ---- a file that was there when the Crazyflie object was created and is missing / unreadable at connect
+        # (the cache directories are listed once, at construction)
+        for f in files:
+            for how in ('deleted', 'replaced-by-directory', 'dangling-symlink'):
+                for where in ('rw', 'ro'):
+                    d2 = os.path.join(base, 'van_' + where)
+                    shutil.rmtree(d2, ignore_errors=True)
+                    shutil.copytree(scratch, d2)
+                    target = os.path.join(d2, f)
+
+                    def vanish(target=target, how=how):
+                        os.remove(target)
+                        if how == 'replaced-by-directory':
+                            os.mkdir(target)
+                        elif how == 'dangling-symlink':
+                            os.symlink(target + '.gone', target)
+                    ob = connect_once(prof, d2 if where == 'ro' else None, d2 if where == 'rw' else None,
+                                      desc['seed'] + 31, after_construct=vanish)
+                    judge_conn(ob, 'file-missing-at-connect:' + how)
+                    ctx.count('mon.files_vanished_before_connect')
+                    ctx.nontrivial((core.h64(prof), 'vanish', f, how, where))
         # ---- garbling that breaks JSON
         for f in files:
             for _ in range(3):
